@@ -10,6 +10,32 @@
 
 #define VF_MASKW(n)	(VF_POW2W(n) - 1)
 
+/* "Term-aligned" product of an array (entry value) and a digit: the sum of the per-digit
+ * double-width products, written with the operand order of the code (d * b[i]) so that every
+ * product term coincides with the one in bn_digit_mult__int's contract:
+ *      VF_MULD_OLD(b, n, d) = sum_{i<n} ((2W)(d) * (2W)(b[i])) << (W*i)
+ * It is mathematically equal to val(b) * d (distributivity); CBMC proves the digit functions
+ * against this form in seconds (adder reasoning only), whereas the closed product form is a
+ * multiplier-equivalence problem that no back end decides beyond two 8-bit digits.  The closed
+ * form is therefore ADDED to these contracts only under -DVF_BN_ASSUME_DISTRIB, for use by
+ * callers that replace the digit functions (bn_mult, bn_mult_digit, bn_div); those jobs list the
+ * identity  sum_i (d*b_i)*B^i == d * sum_i b_i*B^i  as an assumption. */
+#define VF_MT(b, n, d, i) ((((i) < BN_MAX_DIGITS) && ((size_t)(i) < (size_t)(n))) ?		\
+	(((vf_bnv_t)(((vf_dd_t)(d)) * ((vf_dd_t)__CPROVER_old((b)[((size_t)(i) < (size_t)(n) && (i) < BN_MAX_DIGITS) ? (i) : 0])))) << ((VF_W * (i)) % VF_BN_VBITS)) : (vf_bnv_t)0)
+#define VF_MULD_OLD(b, n, d) (								\
+	VF_MT(b,n,d,0) + VF_MT(b,n,d,1) + VF_MT(b,n,d,2) + VF_MT(b,n,d,3) +			\
+	VF_MT(b,n,d,4) + VF_MT(b,n,d,5) + VF_MT(b,n,d,6) + VF_MT(b,n,d,7))
+#if BN_BIT_LEN / BN_DIGIT_BIT_CNT > 8
+#define VF_DISTRIB(c)	1	/* term-aligned specs cover at most 8 digits: rung 2 is W = 8, <= 4 digits */
+#define VF_CLOSED(c)	VF_VALUE(c)
+#elif defined(VF_BN_ASSUME_DISTRIB)
+#define VF_DISTRIB(c)	VF_VALUE(c)
+#define VF_CLOSED(c)	VF_VALUE(c)
+#else
+#define VF_DISTRIB(c)	VF_VALUE(c)
+#define VF_CLOSED(c)	1
+#endif
+
 /* a = (a * d) mod 2^(W*a_count)  (the carry out of the top digit is dropped as coded; the only
  * caller, bn_mult_digit, extends a by one zero digit first) */
 static inline void
@@ -17,7 +43,8 @@ bn_digits_mult_digit__int(bn_digit_t *a, size_t a_count, bn_digit_t d)
 __CPROVER_requires(a_count == 0 || (a != NULL && VF_DS_RW(a, a_count)))
 __CPROVER_requires(VF_VALUE(a != NULL && __CPROVER_r_ok(a, sizeof(bn_digit_t))))
 __CPROVER_assigns(a_count != 0: __CPROVER_object_upto(a, VF_DS_SZ(a_count)))
-__CPROVER_ensures(VF_VALUE(VF_DIGITS_VAL(a, a_count) == ((VF_DIGITS_OLD(a, a_count) * d) & VF_MASKW(a_count))))
+__CPROVER_ensures(VF_DISTRIB(VF_DIGITS_VAL(a, a_count) == (VF_MULD_OLD(a, a_count, d) & VF_MASKW(a_count))))
+__CPROVER_ensures(VF_CLOSED(VF_DIGITS_VAL(a, a_count) == ((VF_DIGITS_OLD(a, a_count) * d) & VF_MASKW(a_count))))
 ;
 /* a = (a + b * d) mod 2^(W*a_count); a_count >= b_count, a and b do not overlap (bn_mult passes
  * &bn->num[j] and the digits of a temporary copy / of n) */
@@ -27,7 +54,9 @@ __CPROVER_requires(a_count >= b_count && a != NULL && b != NULL && VF_DS_RW(a, a
 __CPROVER_requires(VF_DS_DISJOINT(a, a_count, b, b_count))
 __CPROVER_requires(VF_VALUE(__CPROVER_r_ok(a, sizeof(bn_digit_t)) && __CPROVER_r_ok(b, sizeof(bn_digit_t))))
 __CPROVER_assigns(b_count != 0: __CPROVER_object_upto(a, VF_DS_SZ(a_count)))
-__CPROVER_ensures(VF_VALUE(VF_DIGITS_VAL(a, a_count) ==
+__CPROVER_ensures(VF_DISTRIB(VF_DIGITS_VAL(a, a_count) ==
+    ((VF_DIGITS_OLD(a, a_count) + VF_MULD_OLD(b, b_count, d)) & VF_MASKW(a_count))))
+__CPROVER_ensures(VF_CLOSED(VF_DIGITS_VAL(a, a_count) ==
     ((VF_DIGITS_OLD(a, a_count) + VF_DIGITS_OLD(b, b_count) * d) & VF_MASKW(a_count))))
 ;
 /* a = (a - b * d) mod 2^(W*a_count); *borrow (optional) receives what could not be subtracted:
@@ -41,11 +70,13 @@ __CPROVER_requires(VF_VALUE(__CPROVER_r_ok(a, sizeof(bn_digit_t)) && __CPROVER_r
 __CPROVER_requires(borrow == NULL || (VF_D_OK(borrow) && VF_D_OUTSIDE(borrow, a, a_count) && VF_D_OUTSIDE(borrow, b, b_count)))
 __CPROVER_assigns(b_count != 0: __CPROVER_object_upto(a, VF_DS_SZ(a_count)))
 __CPROVER_assigns(borrow != NULL: *borrow)
-__CPROVER_ensures(VF_VALUE(b_count != 0 ==> VF_DIGITS_VAL(a, a_count) ==
+__CPROVER_ensures(VF_DISTRIB(b_count != 0 ==> VF_DIGITS_VAL(a, a_count) ==
+    ((VF_DIGITS_OLD(a, a_count) + (VF_POW2W(a_count) << VF_W) - VF_MULD_OLD(b, b_count, d)) & VF_MASKW(a_count))))
+__CPROVER_ensures(VF_DISTRIB((borrow != NULL && b_count != 0) ==>
+    VF_DIGITS_VAL(a, a_count) + VF_MULD_OLD(b, b_count, d) ==
+    VF_DIGITS_OLD(a, a_count) + (((vf_bnv_t)*borrow) << (VF_W * a_count))))
+__CPROVER_ensures(VF_CLOSED(b_count != 0 ==> VF_DIGITS_VAL(a, a_count) ==
     ((VF_DIGITS_OLD(a, a_count) + (VF_POW2W(a_count) << VF_W) - VF_DIGITS_OLD(b, b_count) * d) & VF_MASKW(a_count))))
-__CPROVER_ensures(VF_VALUE((borrow != NULL && b_count != 0) ==>
-    VF_DIGITS_VAL(a, a_count) + VF_DIGITS_OLD(b, b_count) * d ==
-    VF_DIGITS_OLD(a, a_count) + ((vf_bnv_t)*borrow) * VF_POW2W(a_count)))
 ;
 
 /* bn *= n: zero operand -> 0; EOVERFLOW exactly when both are non-zero and
